@@ -609,6 +609,7 @@ func checkC16(c *Ctx) {
 	}
 	c.checkM3ClientSend("O1 client-send")
 	c.checkThriftErrorDiscipline("O1 error-discipline")
+	c.checkWriteErrorsFromProtocol("O1 write-errors-from-protocol")
 	c.checkCalcTransport("O2 calc-transport")
 	c.checkCalculateSize("O3 calculate-size")
 	c.checkMaxPlaceholders("O4 max-placeholder")
@@ -1249,4 +1250,125 @@ func (c *Ctx) checkThriftErrorDiscipline(rule string) {
 		c.ok(rule, "m3/thrift/v2", token.NoPos, fmt.Sprintf("all %d protocol-call errors in the generated Read / Write methods and the client's send are tested and handed back on the failing edge", nSites))
 	}
 	c.floor(rule, nSites, 100)
+}
+
+// checkWriteErrorsFromProtocol: the generated Write / writeFieldN methods of the five v2 structs fail
+// only when the protocol (that is: the transport) fails - every non-nil error they return flows from
+// the error of a protocol call or of a nested Write / writeFieldN, possibly wrapped by a function of
+// the thrift package. An error of their own making (a validation of the value being written) aborts a
+// message after its first bytes were buffered; the client returns without flushing, and the fragment
+// is sent in front of the next batch - a datagram longer than what was charged, that does not decode.
+func (c *Ctx) checkWriteErrorsFromProtocol(rule string) {
+	const pk = "m3/thrift/v2"
+	structs := map[string]bool{"MetricValue": true, "MetricTag": true, "Metric": true, "MetricBatch": true, "M3EmitMetricBatchV2Args": true}
+	writeFieldRe := regexp.MustCompile(`^writeField\d+$`)
+	n, nBad := 0, 0
+	for _, fn := range c.funcsOfPkg(pk) {
+		fn := fn
+		if fn.Signature.Recv() == nil || fn.Signature.Results().Len() == 0 {
+			continue
+		}
+		nt, _ := deref(fn.Signature.Recv().Type()).(*types.Named)
+		if nt == nil || !structs[nt.Obj().Name()] || !(fn.Name() == "Write" || writeFieldRe.MatchString(fn.Name())) {
+			continue
+		}
+		key := c.fnKey(fn)
+		c.sawFunc(key)
+		n++
+		// the error values of protocol calls and nested writes
+		src := map[ssa.Value]bool{}
+		instrsOf(fn, func(in ssa.Instruction) {
+			call, ok := in.(*ssa.Call)
+			if !ok {
+				return
+			}
+			isProto := false
+			if call.Call.IsInvoke() {
+				if n2, isN := call.Call.Value.Type().(*types.Named); isN && n2.Obj().Name() == "TProtocol" {
+					isProto = true
+				}
+			} else if g := staticCallee(call); g != nil && g.Pkg == fn.Pkg && g.Signature.Recv() != nil && (g.Name() == "Write" || writeFieldRe.MatchString(g.Name())) {
+				isProto = true
+			}
+			if !isProto {
+				return
+			}
+			res := call.Call.Signature().Results()
+			if res.Len() == 1 {
+				src[call] = true
+			} else if call.Referrers() != nil {
+				for _, r := range *call.Referrers() {
+					if ex, isEx := r.(*ssa.Extract); isEx && ex.Index == res.Len()-1 {
+						src[ex] = true
+					}
+				}
+			}
+		})
+		var derives func(v ssa.Value, d int, seen map[ssa.Value]bool) bool
+		derives = func(v ssa.Value, d int, seen map[ssa.Value]bool) bool {
+			v = stripConv(v)
+			if d == 0 || seen[v] {
+				return true // cycles through a phi add nothing
+			}
+			seen[v] = true
+			if src[v] || isNilConst(v) {
+				return true
+			}
+			switch x := v.(type) {
+			case *ssa.Phi:
+				for _, e := range x.Edges {
+					if !derives(e, d-1, seen) {
+						return false
+					}
+				}
+				return true
+			case *ssa.UnOp:
+				if x.Op == token.MUL {
+					if al, ok := x.X.(*ssa.Alloc); ok && al.Referrers() != nil {
+						for _, r := range *al.Referrers() {
+							if st, isSt := r.(*ssa.Store); isSt && st.Addr == ssa.Value(al) && !derives(st.Val, d-1, seen) {
+								return false
+							}
+						}
+						return true
+					}
+				}
+			case *ssa.Call:
+				// a wrapper of the thrift package around a derived error (PrependError, NewT...ExceptionFromError)
+				if g := staticCallee(x); g != nil && g.Pkg != nil && g.Pkg.Pkg.Path() == pkgPath(thriftPkg) {
+					for _, a := range x.Call.Args {
+						if types.Implements(a.Type(), types.Universe.Lookup("error").Type().Underlying().(*types.Interface)) && !isNilConst(a) && derives(a, d-1, seen) {
+							if sa := stripConv(a); src[sa] || !isConstLike(sa) {
+								return true
+							}
+						}
+					}
+				}
+			}
+			return false
+		}
+		okAll := true
+		for _, r := range returnsOf(fn) {
+			if len(r.Results) == 0 {
+				continue
+			}
+			for _, va := range resultValues(r, len(r.Results)-1) {
+				if !derives(va.Val, 8, map[ssa.Value]bool{}) {
+					okAll = false
+					nBad++
+					c.bad(rule, key, va.At.Pos(), fn.Name()+" can fail with an error that does not come from the protocol: the message is abandoned after its first bytes were buffered and nothing resets the buffer - the fragment goes out in front of the next batch (an over-long, undecodable datagram)", c.describe(va.At))
+				}
+			}
+		}
+		if okAll {
+			c.ok(rule, key, fn.Pos(), "every non-nil error returned flows from a protocol call or a nested write")
+		}
+	}
+	_ = nBad
+	c.floor(rule, n, 18) // 5 Write + 13 writeFieldN
+}
+
+func isConstLike(v ssa.Value) bool {
+	_, ok := v.(*ssa.Const)
+	return ok
 }
